@@ -82,7 +82,7 @@ DEFAULT_CFG: dict[str, Any] = {
     "disp": False,
     "size": 10,
     "content": 0,  # seed of the content generator, or a str pattern name
-    "dest": "file",  # file | dir | existing
+    "dest": "file",  # file | dir | existing | dir_existing (directory which already holds a file named like the source)
     "fs": "native",  # native | mem
     "ind": [True, True, True, True],  # eof_sent, eof_recv, file_segment_recvd, transaction_finished
     "req_mode": "cfg",  # 'cfg' -> same as mode given in the request; None -> from MIB
@@ -289,7 +289,7 @@ class World:
             self.dst_inner.mkdir(root / "dstdir")
         self.root = root
         self.src_path = root / "srcdir" / c["src_name"]
-        if c["dest"] == "dir":
+        if c["dest"] in ("dir", "dir_existing"):
             self.dst_req_path = root / "dstdir"
             self.dst_path = root / "dstdir" / c["src_name"]
         else:
@@ -298,7 +298,7 @@ class World:
         self.preexisting = None
         if not c["metadata_only"]:
             self.write_raw("src", self.src_path, self.data)
-        if c["dest"] == "existing":
+        if c["dest"] in ("existing", "dir_existing"):
             self.preexisting = b"OLD-CONTENT-" * 3 + bytes(range(40)) + self.data[::-1]
             self.write_raw("dst", self.dst_path, self.preexisting)
         self.src_fs = RecFilestore(self.src_inner, self.log, "S")
